@@ -3,10 +3,23 @@
 // A case is a history of grant / revoke operations (table-level grants through
 // PUT|DELETE /dsns/{dsn}/tables/{table}/permissions, DSN-level grants through
 // POST /dsns/@permissions, all by the administrator; plus attempts by ordinary
-// users to grant table permissions) interleaved with row reads, inserts,
-// updates, deletes, table metadata, table list and table drop requests by
-// three non-administrators and the administrator, on one restricted and one
-// unrestricted SQLite DSN with two tables each.
+// users to grant table permissions) interleaved with row operations (read,
+// insert, upsert, update, delete), table metadata, table list and table drop
+// requests by three non-administrators and the administrator, on one
+// restricted and one unrestricted SQLite DSN with two tables each.
+//
+// Every row operation exists in several REPRESENTATIONS (repsOf): plain JSON
+// with its payload shapes (single row, {"rows":[...]}, bare array) and
+// parameter variants (filter, columns, sort, limit, _row_id_ in the payload),
+// ?abstract=true, the abstract media type in Accept/Content-Type, and every
+// @transaction task kind that performs it (insert/update/delete/select/
+// readrows and SQL text in sql/readrows tasks). A request names one
+// representation or "all" (a sweep). Two things are required of them:
+//   - each operation needs ITS OWN table grant (read / write / update /
+//     delete), whatever the representation;
+//   - metamorphic: one operation by one user on one grant state gets one
+//     allow/deny class in every representation (a 2xx in one and a 401/403 in
+//     another is a violation even where the exact permission is contested).
 //
 // The oracle keeps a model of the grant store and of the table contents. The
 // documented rule (docs/SERVER.md "Permissions Model", "Putting it together"):
@@ -19,8 +32,14 @@
 // Where the documentation contradicts itself or the code on a detail the
 // property does not fix, the model only asserts what every reading agrees on:
 //   - docs/API.md says an insert needs table.update, docs/SERVER.md says
-//     table.write: an insert is "certainly allowed" with both, "certainly
-//     denied" with neither;
+//     table.write: an insert (and an upsert, which may rewrite a row) is
+//     "certainly allowed" with both, "certainly denied" with neither. This is
+//     contested for INSERT only: update needs update, delete needs delete,
+//     read needs read;
+//   - SQL text in a script (sql / readrows tasks) needs the identity permission
+//     ego.sql, which all three users hold; a statement with a WHERE clause may
+//     also be asked for the read grant, so SQL text is "certainly allowed"
+//     only with read as well and is left out of the metamorphic relation;
 //   - SERVER.md: a DSN-level admin grant "also satisfies read and write"; the
 //     code keeps three independent bits: a request that has only the DSN admin
 //     grant for a read/write is not judged;
@@ -72,8 +91,11 @@ type Op struct {
 	DSN   int      `json:"dsn"`             // 0 restricted, 1 unrestricted
 	Table int      `json:"table"`           // 0 | 1
 	Perms []string `json:"perms,omitempty"` // "+read" "-write" ... (table: read write update delete admin; dsn: read write admin)
-	Req   string   `json:"req,omitempty"`   // read readabs describe list insert update delete drop txread txinsert txdelete (one-task @transaction)
+	Req   string   `json:"req,omitempty"`   // read insert upsert update delete (row operations, see repsOf) describe list drop; old spellings readabs txread txinsert txdelete are still read
 	ID    int      `json:"id,omitempty"`    // row id for insert / update / delete
+	// Rep selects the representation of a row operation (see repsOf); "" is the
+	// first one, "all" runs the operation in every representation (a sweep).
+	Rep string `json:"rep,omitempty"`
 }
 
 type Case struct {
@@ -153,78 +175,63 @@ const (
 	deny
 )
 
+// ownPerm is the table-level permission an operation needs by SERVER.md's
+// four-step rule ("ego.table.write: may insert rows", "update: may update
+// rows", "delete: may delete rows", "read: may read that table's rows").
+func ownPerm(req string) string {
+	switch req {
+	case "insert", "upsert":
+		return "write"
+	case "update":
+		return "update"
+	case "delete":
+		return "delete"
+	}
+	return "read"
+}
+
 // expect gives what every reading of the documentation agrees on for a
 // request by ordinary user u on the restricted DSN, and which tier denies.
-func (m *model) expect(u int, req string, t int) (tri, string) {
+// tx: the request is an @transaction task (the script is opened for read and
+// write, so "certainly allowed" asks for both DSN-level grants); sqlText: the
+// task is SQL text (a statement with a WHERE clause may also be asked for read).
+func (m *model) expect(u int, req string, t int, tx, sqlText bool) (tri, string) {
 	ds := m.dsnG[u]
 	ts := m.tblG[u][0][t]
-	dAllow := func(x string) bool { return ds[x] }
 	dDeny := func(x string) bool { return !ds[x] && !ds["admin"] }
 	var a, dn bool
 	why := ""
 	switch req {
-	case "txread":
-		// @transaction opens the DSN for read+write in the code; the docs ask
-		// for the action that matches the operation
-		a = dAllow("read") && dAllow("write") && ts["read"]
-		switch {
-		case dDeny("read"):
-			dn, why = true, "dsn"
-		case !ts["read"] && !ts["admin"]:
-			dn, why = true, "table"
+	case "read", "describe", "insert", "upsert", "update", "delete":
+		action := "write"
+		if req == "read" || req == "describe" {
+			action = "read"
 		}
-	case "txinsert":
-		a = dAllow("read") && dAllow("write") && ts["write"] && ts["update"]
-		switch {
-		case dDeny("write"):
-			dn, why = true, "dsn"
-		case !ts["write"] && !ts["update"] && !ts["admin"]:
-			dn, why = true, "table"
+		own := ownPerm(req)
+		a = ds[action] && ts[own]
+		if tx {
+			a = a && ds["read"] && ds["write"]
 		}
-	case "txdelete":
-		a = dAllow("read") && dAllow("write") && ts["delete"]
-		switch {
-		case dDeny("write"):
-			dn, why = true, "dsn"
-		case !ts["delete"] && !ts["admin"]:
-			dn, why = true, "table"
+		if sqlText && req != "read" {
+			a = a && ts["read"]
 		}
-	case "read", "readabs", "describe":
-		a = dAllow("read") && ts["read"]
+		tblDeny := !ts[own] && !ts["admin"]
+		if req == "insert" || req == "upsert" {
+			// API.md asks for table.update on PUT rows, SERVER.md for table.write;
+			// an upsert may also rewrite an existing row
+			a = a && ts["update"]
+			tblDeny = tblDeny && !ts["update"]
+		}
 		switch {
-		case dDeny("read"):
+		case dDeny(action):
 			dn, why = true, "dsn"
-		case !ts["read"] && !ts["admin"]:
+		case tblDeny:
 			dn, why = true, "table"
 		}
 	case "list":
-		a = dAllow("read")
+		a = ds["read"]
 		if dDeny("read") {
 			dn, why = true, "dsn"
-		}
-	case "insert":
-		a = dAllow("write") && ts["write"] && ts["update"]
-		switch {
-		case dDeny("write"):
-			dn, why = true, "dsn"
-		case !ts["write"] && !ts["update"] && !ts["admin"]:
-			dn, why = true, "table"
-		}
-	case "update":
-		a = dAllow("write") && ts["update"]
-		switch {
-		case dDeny("write"):
-			dn, why = true, "dsn"
-		case !ts["update"] && !ts["admin"]:
-			dn, why = true, "table"
-		}
-	case "delete":
-		a = dAllow("write") && ts["delete"]
-		switch {
-		case dDeny("write"):
-			dn, why = true, "dsn"
-		case !ts["delete"] && !ts["admin"]:
-			dn, why = true, "table"
 		}
 	case "drop":
 		a = ds["admin"] && ts["admin"] && ts["update"]
@@ -242,6 +249,67 @@ func (m *model) expect(u int, req string, t int) (tri, string) {
 	return unsure, ""
 }
 
+// shape names the caller's grants relative to the operation, for the coverage
+// cells: dsn-missing, own-only, own+others, admin-without-own, none, or
+// "<held>-without-<own>" (e.g. write-without-update).
+func (m *model) shape(u int, req string, t int) string {
+	ds := m.dsnG[u]
+	ts := m.tblG[u][0][t]
+	action := "write"
+	if req == "read" || req == "describe" || req == "list" {
+		action = "read"
+	}
+	if !ds[action] {
+		if ds["admin"] {
+			return "dsn-admin-only"
+		}
+		return "dsn-missing"
+	}
+	own := ownPerm(req)
+	var others []string
+	for _, p := range []string{"read", "write", "update", "delete"} {
+		if p != own && ts[p] {
+			others = append(others, p)
+		}
+	}
+	switch {
+	case ts[own] && len(others) == 0:
+		return "own-only"
+	case ts[own]:
+		return "own+" + strings.Join(others, "+")
+	case ts["admin"]:
+		return "admin-without-" + own
+	case len(others) == 0:
+		return "none"
+	}
+	return strings.Join(others, "+") + "-without-" + own
+}
+
+// repsOf lists the representations in which a row operation is generated:
+// everything the row endpoints accept for it (plain JSON with its payload and
+// parameter variants, ?abstract=true, the abstract media type in Accept /
+// Content-Type where the route admits it) and every @transaction task kind
+// that performs it. PATCH and DELETE routes reject the abstract media type and
+// DELETE rejects ?abstract (400 from the router, before any handler), so
+// those spellings do not exist as representations.
+func repsOf(req string) []string {
+	switch req {
+	case "read":
+		return []string{"plain", "plain-params", "abs-param", "abs-accept", "tx-readrows", "tx-select", "tx-sql", "tx-readrows-sql"}
+	case "insert":
+		return []string{"plain-one", "plain-set", "plain-array", "abs-param-set", "abs-param-one", "abs-accept-set", "tx-insert", "tx-sql"}
+	case "upsert":
+		return []string{"plain-one", "plain-set"}
+	case "update":
+		return []string{"plain-filter", "plain-set", "plain-columns", "plain-rowid", "abs-param-set", "tx-update", "tx-sql"}
+	case "delete":
+		return []string{"plain-filter", "plain-and", "tx-delete", "tx-sql"}
+	}
+	return []string{"plain"}
+}
+
+const absMedia = "application/vnd.ego.rows.abstract+json"
+
 // ------------------------------------------------------------- environment
 
 type env struct {
@@ -254,6 +322,7 @@ type env struct {
 	dsnLive bool      // DSN-level grants may be left from the previous case
 	reqs    int
 	ntReqs  int
+	cells   map[string]bool // operation / representation / grant shape -> class, for the evidence
 }
 
 var (
@@ -275,7 +344,7 @@ func startEnv() (*env, error) {
 	if err != nil {
 		return nil, err
 	}
-	e := &env{f: f, known: loadKnown()}
+	e := &env{f: f, known: loadKnown(), cells: map[string]bool{}}
 	tok, err := f.AdminToken()
 	if err != nil {
 		return nil, err
@@ -286,11 +355,11 @@ func startEnv() (*env, error) {
 		return h
 	}
 	e.hdr[3] = mk(tok)
-	idPerms := []string{"ego.logon", "ego.table.read", "ego.table.write", "ego.table.update", "ego.table.delete"}
+	idPerms := []string{"ego.logon", "ego.sql", "ego.table.read", "ego.table.write", "ego.table.update", "ego.table.delete"}
 	for u := 0; u < 3; u++ {
 		perms := idPerms
 		if u == 2 {
-			perms = []string{"ego.logon"}
+			perms = []string{"ego.logon", "ego.sql"}
 		}
 		if err := f.CreateUser(tok, userNames[u], password, perms); err != nil {
 			return nil, err
@@ -349,8 +418,18 @@ func loadKnown() map[string]bool {
 	return out
 }
 
-func (e *env) do(who int, method, path, body string) *srvfix.Response {
-	return e.f.Do(srvfix.Request{Method: method, Path: path, Header: e.hdr[who], Body: body})
+func (e *env) do(who int, method, path, body string, extra ...string) *srvfix.Response {
+	h := e.hdr[who]
+	if len(extra) > 0 {
+		h = map[string]string{}
+		for k, v := range e.hdr[who] {
+			h[k] = v
+		}
+		for i := 0; i+1 < len(extra); i += 2 {
+			h[extra[i]] = extra[i+1]
+		}
+	}
+	return e.f.Do(srvfix.Request{Method: method, Path: path, Header: h, Body: body})
 }
 
 const colDefs = `[{"name":"id","type":"int"},{"name":"name","type":"string"}]`
@@ -443,6 +522,253 @@ func (e *env) snapshot() (string, error) {
 		}
 	}
 	return b.String(), nil
+}
+
+// request is one concrete HTTP request of a row operation and its effect on
+// the model's table contents when it is answered 2xx.
+type request struct {
+	method, path, body string
+	headers            []string
+	apply              func()
+}
+
+func panicIf(err error) {
+	if err != nil {
+		panic("fixture: " + err.Error())
+	}
+}
+
+// resync reloads the model's table contents from the database (after a
+// reported difference, so that one defect is reported once).
+func (e *env) resync(m *model) error {
+	for d := 0; d < 2; d++ {
+		for t := 0; t < 2; t++ {
+			rows, err := e.conn[d].QueryContext(ctx, "SELECT id, name FROM "+e.tn[t])
+			if err != nil {
+				m.rows[d][t] = nil
+				continue
+			}
+			var out []rowT
+			for rows.Next() {
+				var id int64
+				var name sql.NullString
+				if err := rows.Scan(&id, &name); err != nil {
+					rows.Close()
+					return err
+				}
+				out = append(out, rowT{id, name.String})
+			}
+			rows.Close()
+			m.rows[d][t] = out
+		}
+	}
+	return nil
+}
+
+// ensureRow makes sure a row with this id exists (the administrator inserts
+// one if not), so that an allowed update / delete is answered 2xx, not 404.
+func (e *env) ensureRow(m *model, d, t int, id int64, step int) {
+	for _, r := range m.rows[d][t] {
+		if r.id == id {
+			return
+		}
+	}
+	name := fmt.Sprintf("fill%d", step)
+	r := e.do(3, "PUT", "/dsns/"+dsnNames[d]+"/tables/"+e.tn[t]+"/rows", fmt.Sprintf(`{"id":%d,"name":"%s"}`, id, name))
+	if r.Status/100 != 2 {
+		panic(fmt.Sprintf("fixture: administrator insert: %d %s", r.Status, r.Body))
+	}
+	m.rows[d][t] = append(m.rows[d][t], rowT{id, name})
+}
+
+// buildRequest turns (operation, representation) into a request. ok=false:
+// the representation cannot be expressed in this state.
+func (e *env) buildRequest(m *model, op Op, rep string, step, ri int) (request, bool) {
+	d, t := op.DSN, op.Table
+	dn, tn := dsnNames[d], e.tn[t]
+	base := "/dsns/" + dn + "/tables/" + tn
+	txPath := "/dsns/" + dn + "/tables/@transaction"
+	id := int64(op.ID)
+	name := fmt.Sprintf("w%d_%d", step, ri)
+	rows := &m.rows[d][t]
+	rq := request{apply: func() {}}
+	insert := func(ids ...int64) func() {
+		return func() {
+			for k, x := range ids {
+				*rows = append(*rows, rowT{x, fmt.Sprintf("%s_%d", name, k)})
+			}
+		}
+	}
+	update := func() {
+		for k := range *rows {
+			if (*rows)[k].id == id {
+				(*rows)[k].name = name
+			}
+		}
+	}
+	switch op.Req {
+	case "describe":
+		rq.method, rq.path = "GET", base
+	case "list":
+		rq.method, rq.path = "GET", "/dsns/"+dn+"/tables/"
+	case "drop":
+		rq.method, rq.path = "DELETE", base
+	case "read":
+		rq.method, rq.path = "GET", base+"/rows"
+		switch rep {
+		case "plain":
+		case "plain-params":
+			rq.path += fmt.Sprintf("?columns=id,name&filter=GE(id,%d)&sort=~id&limit=3", id)
+		case "abs-param":
+			rq.path += "?abstract=true"
+		case "abs-accept":
+			rq.headers = []string{"Accept", absMedia}
+		case "tx-readrows":
+			rq.method, rq.path = "POST", txPath
+			rq.body = fmt.Sprintf(`[{"operation":"readrows","table":"%s"}]`, tn)
+		case "tx-select":
+			rq.method, rq.path = "POST", txPath
+			rq.body = fmt.Sprintf(`[{"operation":"select","table":"%s","filters":["EQ(id,%d)"],"columns":["name"]}]`, tn, id)
+		case "tx-sql":
+			rq.method, rq.path = "POST", txPath
+			rq.body = fmt.Sprintf(`[{"operation":"sql","sql":"select id, name from %s where id >= %d"}]`, tn, id)
+		case "tx-readrows-sql":
+			rq.method, rq.path = "POST", txPath
+			rq.body = fmt.Sprintf(`[{"operation":"readrows","sql":"select name from %s"}]`, tn)
+		default:
+			return rq, false
+		}
+	case "insert":
+		rq.method, rq.path = "PUT", base+"/rows"
+		one := fmt.Sprintf(`{"id":%d,"name":"%s_0"}`, id, name)
+		two := fmt.Sprintf(`{"id":%d,"name":"%s_0"},{"id":%d,"name":"%s_1"}`, id, name, id+10, name)
+		// the abstract forms carry the _row_id_ column, as a row set read with
+		// ?abstract=true does (the server assigns the value)
+		absSet := fmt.Sprintf(`{"columns":[{"name":"id","type":"int"},{"name":"name","type":"string"},{"name":"_row_id_","type":"string"}],"rows":[[%d,"%s_0",""],[%d,"%s_1",""]],"count":2}`, id, name, id+10, name)
+		rq.apply = insert(id, id+10)
+		switch rep {
+		case "plain-one":
+			rq.body, rq.apply = one, insert(id)
+		case "plain-set":
+			rq.body = `{"rows":[` + two + `],"count":2}`
+		case "plain-array":
+			rq.body = `[` + two + `]`
+		case "abs-param-set":
+			rq.path += "?abstract=true"
+			rq.body = absSet
+		case "abs-param-one":
+			rq.path += "?abstract=true"
+			rq.body, rq.apply = fmt.Sprintf(`{"id":%d,"name":"%s_0","_row_id_":""}`, id, name), insert(id)
+		case "abs-accept-set":
+			rq.headers = []string{"Accept", absMedia, "Content-Type", absMedia}
+			rq.body = absSet
+		case "tx-insert":
+			rq.method, rq.path = "POST", txPath
+			rq.body, rq.apply = fmt.Sprintf(`[{"operation":"insert","table":"%s","data":%s}]`, tn, one), insert(id)
+		case "tx-sql":
+			rq.method, rq.path = "POST", txPath
+			rq.body, rq.apply = fmt.Sprintf(`[{"operation":"sql","sql":"insert into %s (id, name) values (%d, '%s_0')"}]`, tn, id, name), insert(id)
+		default:
+			return rq, false
+		}
+	case "upsert":
+		// a key that is not in the table: the row is inserted; one that is: the
+		// matching rows are rewritten
+		rq.method, rq.path = "PUT", base+"/rows?upsert=id"
+		upsertOne := func(x int64, k int) func() {
+			return func() {
+				hit := false
+				for j := range *rows {
+					if (*rows)[j].id == x {
+						(*rows)[j].name, hit = fmt.Sprintf("%s_%d", name, k), true
+					}
+				}
+				if !hit {
+					*rows = append(*rows, rowT{x, fmt.Sprintf("%s_%d", name, k)})
+				}
+			}
+		}
+		switch rep {
+		case "plain-one":
+			rq.body, rq.apply = fmt.Sprintf(`{"id":%d,"name":"%s_0"}`, id+20, name), upsertOne(id+20, 0)
+		case "plain-set":
+			rq.body = fmt.Sprintf(`{"rows":[{"id":%d,"name":"%s_0"},{"id":%d,"name":"%s_1"}],"count":2}`, id+40, name, id+50, name)
+			a, b := upsertOne(id+40, 0), upsertOne(id+50, 1)
+			rq.apply = func() { a(); b() }
+		default:
+			return rq, false
+		}
+	case "update":
+		e.ensureRow(m, d, t, id, step)
+		rq.method, rq.path = "PATCH", fmt.Sprintf("%s/rows?filter=EQ(id,%d)", base, id)
+		rq.apply = update
+		switch rep {
+		case "plain-filter":
+			rq.body = fmt.Sprintf(`{"name":"%s"}`, name)
+		case "plain-set":
+			rq.body = fmt.Sprintf(`{"rows":[{"name":"%s"}],"count":1}`, name)
+		case "plain-columns":
+			rq.path += "&columns=name"
+			rq.body = fmt.Sprintf(`{"name":"%s","id":%d}`, name, id+1000)
+		case "plain-rowid":
+			// "If a _row_id_ field is present in the row payload, only that
+			// specific row is updated" (docs/API.md): a client gets the value
+			// from an earlier read; the harness reads it from the database
+			var rid, old sql.NullString
+			if err := e.conn[d].QueryRowContext(ctx, "SELECT _row_id_, name FROM "+tn+" WHERE id = ? ORDER BY name LIMIT 1", id).Scan(&rid, &old); err != nil || !rid.Valid || rid.String == "" {
+				return rq, false
+			}
+			rq.path = base + "/rows"
+			rq.body = fmt.Sprintf(`{"_row_id_":"%s","name":"%s"}`, rid.String, name)
+			rq.apply = func() {
+				for k := range *rows {
+					if (*rows)[k].id == id && (*rows)[k].name == old.String {
+						(*rows)[k].name = name
+						return
+					}
+				}
+			}
+		case "abs-param-set":
+			rq.path += "&abstract=true"
+			rq.body = fmt.Sprintf(`{"columns":[{"name":"name","type":"string"}],"rows":[["%s"]],"count":1}`, name)
+		case "tx-update":
+			rq.method, rq.path = "POST", txPath
+			rq.body = fmt.Sprintf(`[{"operation":"update","table":"%s","filters":["EQ(id,%d)"],"data":{"name":"%s"}}]`, tn, id, name)
+		case "tx-sql":
+			rq.method, rq.path = "POST", txPath
+			rq.body = fmt.Sprintf(`[{"operation":"sql","sql":"update %s set name = '%s' where id = %d"}]`, tn, name, id)
+		default:
+			return rq, false
+		}
+	case "delete":
+		e.ensureRow(m, d, t, id, step)
+		rq.method, rq.path = "DELETE", fmt.Sprintf("%s/rows?filter=EQ(id,%d)", base, id)
+		rq.apply = func() {
+			var keep []rowT
+			for _, x := range *rows {
+				if x.id != id {
+					keep = append(keep, x)
+				}
+			}
+			*rows = keep
+		}
+		switch rep {
+		case "plain-filter":
+		case "plain-and":
+			rq.path = fmt.Sprintf("%s/rows?filter=AND(GE(id,%d),LE(id,%d))", base, id, id)
+		case "tx-delete":
+			rq.method, rq.path = "POST", txPath
+			rq.body = fmt.Sprintf(`[{"operation":"delete","table":"%s","filters":["EQ(id,%d)"]}]`, tn, id)
+		case "tx-sql":
+			rq.method, rq.path = "POST", txPath
+			rq.body = fmt.Sprintf(`[{"operation":"sql","sql":"delete from %s where id = %d"}]`, tn, id)
+		default:
+			return rq, false
+		}
+	default:
+		return rq, false
+	}
+	return rq, true
 }
 
 // -------------------------------------------------------------------- oracle
@@ -620,43 +946,25 @@ func oracle(c Case) vkit.Outcome {
 			out.Labels = append(out.Labels, "op dgrant")
 
 		case "req":
-			e.reqs++
-			who := op.User
-			var method, path, body string
-			base := "/dsns/" + dn + "/tables/" + tn
-			name := fmt.Sprintf("w%d", i)
+			// old spellings (recorded replay files)
 			switch op.Req {
-			case "read":
-				method, path = "GET", base+"/rows"
 			case "readabs":
-				method, path = "GET", base+"/rows?abstract=true"
-			case "describe":
-				method, path = "GET", base
-			case "list":
-				method, path = "GET", "/dsns/"+dn+"/tables/"
-			case "insert":
-				method, path = "PUT", base+"/rows"
-				body = fmt.Sprintf(`{"id":%d,"name":"%s"}`, op.ID, name)
-			case "update":
-				method, path = "PATCH", fmt.Sprintf("%s/rows?filter=EQ(id,%d)", base, op.ID)
-				body = fmt.Sprintf(`{"name":"%s"}`, name)
-			case "delete":
-				method, path = "DELETE", fmt.Sprintf("%s/rows?filter=EQ(id,%d)", base, op.ID)
-			case "drop":
-				method, path = "DELETE", base
+				op.Req, op.Rep = "read", "abs-param"
 			case "txread":
-				method, path = "POST", "/dsns/"+dn+"/tables/@transaction"
-				body = fmt.Sprintf(`[{"operation":"readrows","table":"%s"}]`, tn)
+				op.Req, op.Rep = "read", "tx-readrows"
 			case "txinsert":
-				method, path = "POST", "/dsns/"+dn+"/tables/@transaction"
-				body = fmt.Sprintf(`[{"operation":"insert","table":"%s","data":{"id":%d,"name":"%s"}}]`, tn, op.ID, name)
+				op.Req, op.Rep = "insert", "tx-insert"
 			case "txdelete":
-				method, path = "POST", "/dsns/"+dn+"/tables/@transaction"
-				body = fmt.Sprintf(`[{"operation":"delete","table":"%s","filters":["EQ(id,%d)"]}]`, tn, op.ID)
+				op.Req, op.Rep = "delete", "tx-delete"
 			}
-			exp, why := allow, ""
-			if who < 3 && op.DSN == 0 {
-				exp, why = m.expect(who, op.Req, op.Table)
+			who := op.User
+			reps := repsOf(op.Req)
+			switch {
+			case op.Rep == "all":
+			case op.Rep == "":
+				reps = reps[:1]
+			default:
+				reps = []string{op.Rep}
 			}
 			// non-triviality: the request follows a grant to another user on the
 			// same table, or to the same user on another table / DSN
@@ -671,15 +979,6 @@ func oracle(c Case) vkit.Outcome {
 					}
 				}
 			}
-			r := e.do(who, method, path, body)
-			class := "other"
-			switch {
-			case r.Status/100 == 2:
-				class = "2xx"
-			case r.Status == 403 || r.Status == 401:
-				class = "denied"
-			}
-			trace = append(trace, fmt.Sprintf("%d %s %s %s %s -> %d", i, userNames[who], method, path, body, r.Status))
 			ctxs := "restricted"
 			switch {
 			case who == 3:
@@ -687,118 +986,157 @@ func oracle(c Case) vkit.Outcome {
 			case op.DSN == 1:
 				ctxs = "unrestricted"
 			}
-			expS := map[tri]string{allow: "allow", deny: "deny", unsure: "unsure"}[exp]
-			out.Labels = append(out.Labels, fmt.Sprintf("req %s %s expect=%s -> %s", ctxs, op.Req, expS, class))
-			if nt {
-				out.NonTrivial = true
-				e.ntReqs++
-				out.Labels = append(out.Labels, fmt.Sprintf("nontrivial req expect=%s", expS))
+			judged := who < 3 && op.DSN == 0
+			shape := ctxs
+			if judged {
+				shape = m.shape(who, op.Req, op.Table)
 			}
-			who3 := fmt.Sprintf("%s (dsn grants {%s}; grants on this table {%s})", userNames[who], "", "")
+			who3 := userNames[who]
 			if who < 3 {
 				who3 = fmt.Sprintf("%s (dsn grants {%s}; grants on this table {%s})", userNames[who], setString(m.dsnG[who]), setString(m.tblG[who][op.DSN][op.Table]))
 			}
-			obs := fmt.Sprintf("%s on the %s DSN: %s %s %s -> %d %s", who3, ctxs, method, path, body, r.Status, clip(r.Body, 200))
-			if r.Panic != nil {
-				if o, stop := fail("handler-panic "+srvfix.PanicSite(r.Stack), obs+fmt.Sprintf(" panic: %v", r.Panic), "a response"); stop {
-					return o
+			firstAllowed, firstDenied := "", ""
+			for ri, rep := range reps {
+				e.reqs++
+				rq, ok := e.buildRequest(m, op, rep, i, ri)
+				if !ok {
+					out.Labels = append(out.Labels, "representation not applicable "+op.Req+"/"+rep)
+					continue
 				}
-			}
-			switch {
-			case exp == deny && class == "2xx":
-				if o, stop := fail(fmt.Sprintf("allowed-without-grant req=%s missing=%s", op.Req, why), obs, "403: the permission store has no matching "+why+" grant for this user"); stop {
-					return o
+				exp, why := allow, ""
+				if judged {
+					exp, why = m.expect(who, op.Req, op.Table, strings.HasPrefix(rep, "tx-"), strings.HasSuffix(rep, "sql"))
 				}
-			case exp == allow && class == "denied":
-				sig := fmt.Sprintf("denied-despite-grant req=%s", op.Req)
-				if ctxs != "restricted" {
-					sig = fmt.Sprintf("%s-denied req=%s", ctxs, op.Req)
+				r := e.do(who, rq.method, rq.path, rq.body, rq.headers...)
+				class := "other"
+				switch {
+				case r.Status/100 == 2:
+					class = "2xx"
+				case r.Status == 403 || r.Status == 401:
+					class = "denied"
 				}
-				if o, stop := fail(sig, obs, "2xx: "+ctxs+" caller / matching DSN and table grants are recorded"); stop {
-					return o
+				trace = append(trace, fmt.Sprintf("%d %s [%s/%s] %s %s %s %v -> %d", i, userNames[who], op.Req, rep, rq.method, rq.path, rq.body, rq.headers, r.Status))
+				expS := map[tri]string{allow: "allow", deny: "deny", unsure: "unsure"}[exp]
+				out.Labels = append(out.Labels, fmt.Sprintf("req %s %s expect=%s -> %s", ctxs, op.Req, expS, class))
+				cell := fmt.Sprintf("%s/%s %s -> %s", op.Req, rep, shape, class)
+				e.cells[cell] = true
+				if judged {
+					out.Labels = append(out.Labels, "cell "+cell)
 				}
-			}
-			// effects
-			if class == "2xx" {
-				rows := &m.rows[op.DSN][op.Table]
-				switch op.Req {
-				case "insert", "txinsert":
-					*rows = append(*rows, rowT{int64(op.ID), name})
-				case "update":
-					for k := range *rows {
-						if (*rows)[k].id == int64(op.ID) {
-							(*rows)[k].name = name
+				if nt {
+					out.NonTrivial = true
+					e.ntReqs++
+					out.Labels = append(out.Labels, fmt.Sprintf("nontrivial req expect=%s", expS))
+				}
+				obs := fmt.Sprintf("%s on the %s DSN, operation %s in representation %s: %s %s %s %v -> %d %s", who3, ctxs, op.Req, rep, rq.method, rq.path, rq.body, rq.headers, r.Status, clip(r.Body, 200))
+				if r.Panic != nil {
+					if o, stop := fail("handler-panic "+srvfix.PanicSite(r.Stack), obs+fmt.Sprintf(" panic: %v", r.Panic), "a response"); stop {
+						return o
+					}
+				}
+				switch {
+				case exp == deny && class == "2xx":
+					if o, stop := fail(fmt.Sprintf("allowed-without-grant req=%s rep=%s missing=%s", op.Req, rep, why), obs, "403: the permission store has no matching "+why+" grant for this user (each operation needs its own grant: "+ownPerm(op.Req)+")"); stop {
+						return o
+					}
+				case exp == allow && class == "denied":
+					sig := fmt.Sprintf("denied-despite-grant req=%s rep=%s", op.Req, rep)
+					if ctxs != "restricted" {
+						sig = fmt.Sprintf("%s-denied req=%s rep=%s", ctxs, op.Req, rep)
+					}
+					if o, stop := fail(sig, obs, "2xx: "+ctxs+" caller / matching DSN and table grants are recorded"); stop {
+						return o
+					}
+				}
+				// the metamorphic relation: one operation, one user, one grant state
+				// -> one allow/deny class, whatever the representation. SQL text is
+				// left out of the relation (its WHERE clause may ask for read too).
+				if !strings.HasSuffix(rep, "sql") {
+					if class == "2xx" && firstAllowed == "" {
+						firstAllowed = rep
+					}
+					if class == "denied" && firstDenied == "" {
+						firstDenied = rep
+					}
+				}
+				// effects
+				if class == "2xx" {
+					rq.apply()
+					switch op.Req {
+					case "drop":
+						// the table is gone: the administrator recreates it and
+						// clears every user's grants on it explicitly, so that the
+						// model does not depend on what a drop does to grants
+						snap, err := e.snapshot()
+						if err != nil {
+							panic(err)
 						}
-					}
-				case "delete", "txdelete":
-					var keep []rowT
-					for _, x := range *rows {
-						if x.id != int64(op.ID) {
-							keep = append(keep, x)
-						}
-					}
-					*rows = keep
-				case "drop":
-					// the table is gone: the administrator recreates it and
-					// clears every user's grants on it explicitly, so that the
-					// model does not depend on what a drop does to grants
-					snap, err := e.snapshot()
-					if err != nil {
-						panic(err)
-					}
-					if !strings.Contains(snap, fmt.Sprintf("%s.t%d:absent", dn, op.Table)) {
-						if o, stop := fail("drop-reported-but-table-exists", obs, "table absent"); stop {
-							return o
-						}
-					}
-					if err := e.createTable(op.DSN, op.Table); err != nil {
-						panic("fixture: " + err.Error())
-					}
-					for u := 0; u < 3; u++ {
-						p := fmt.Sprintf("/dsns/%s/tables/%s/permissions?user=%s", dn, tn, userNames[u])
-						if r := e.do(3, "DELETE", p, ""); r.Status/100 != 2 {
-							if o, stop := fail("table-grant-endpoint-failed", fmt.Sprintf("administrator: DELETE %s -> %d %s", p, r.Status, clip(r.Body, 300)), "2xx"); stop {
+						if !strings.Contains(snap, fmt.Sprintf("%s.t%d:absent", dn, op.Table)) {
+							if o, stop := fail("drop-reported-but-table-exists", obs, "table absent"); stop {
 								return o
 							}
 						}
-						m.tblG[u][op.DSN][op.Table] = map[string]bool{}
-					}
-					*rows = seedRows(op.DSN, op.Table)
-				case "list":
-					if who < 3 && op.DSN == 0 {
-						var lr struct {
-							Tables []struct {
-								Name string `json:"name"`
-							} `json:"tables"`
+						if err := e.createTable(op.DSN, op.Table); err != nil {
+							panic("fixture: " + err.Error())
 						}
-						if r.JSON(&lr) == nil {
-							shown := map[string]bool{}
-							for _, t := range lr.Tables {
-								shown[strings.Trim(t.Name, `"`)] = true
-							}
-							for t := 0; t < 2; t++ {
-								ts := m.tblG[who][0][t]
-								if shown[e.tn[t]] && !ts["read"] && !ts["admin"] {
-									if o, stop := fail("list-shows-table-without-grant", obs+fmt.Sprintf("; table %s listed, grants on it {%s}", e.tn[t], setString(ts)), "tables without a read grant are not listed"); stop {
-										return o
-									}
+						for u := 0; u < 3; u++ {
+							p := fmt.Sprintf("/dsns/%s/tables/%s/permissions?user=%s", dn, tn, userNames[u])
+							if r := e.do(3, "DELETE", p, ""); r.Status/100 != 2 {
+								if o, stop := fail("table-grant-endpoint-failed", fmt.Sprintf("administrator: DELETE %s -> %d %s", p, r.Status, clip(r.Body, 300)), "2xx"); stop {
+									return o
 								}
-								if !shown[e.tn[t]] && ts["read"] && who != 2 {
-									if o, stop := fail("list-hides-granted-table", obs+fmt.Sprintf("; table %s not listed, grants on it {%s}", e.tn[t], setString(ts)), "a table the caller may read is listed"); stop {
-										return o
+							}
+							m.tblG[u][op.DSN][op.Table] = map[string]bool{}
+						}
+						m.rows[op.DSN][op.Table] = seedRows(op.DSN, op.Table)
+					case "list":
+						if judged {
+							var lr struct {
+								Tables []struct {
+									Name string `json:"name"`
+								} `json:"tables"`
+							}
+							if r.JSON(&lr) == nil {
+								shown := map[string]bool{}
+								for _, t := range lr.Tables {
+									shown[strings.Trim(t.Name, `"`)] = true
+								}
+								for t := 0; t < 2; t++ {
+									ts := m.tblG[who][0][t]
+									if shown[e.tn[t]] && !ts["read"] && !ts["admin"] {
+										if o, stop := fail("list-shows-table-without-grant", obs+fmt.Sprintf("; table %s listed, grants on it {%s}", e.tn[t], setString(ts)), "tables without a read grant are not listed"); stop {
+											return o
+										}
+									}
+									if !shown[e.tn[t]] && ts["read"] && who != 2 {
+										if o, stop := fail("list-hides-granted-table", obs+fmt.Sprintf("; table %s not listed, grants on it {%s}", e.tn[t], setString(ts)), "a table the caller may read is listed"); stop {
+											return o
+										}
 									}
 								}
 							}
 						}
 					}
 				}
+				got, err := e.snapshot()
+				if err != nil {
+					panic("snapshot: " + err.Error())
+				}
+				if want := m.snapshot(); got != want {
+					if o, stop := fail(fmt.Sprintf("contents-differ req=%s rep=%s class=%s expect=%s", op.Req, rep, class, expS), obs+"; database:\n"+got, "database:\n"+want); stop {
+						return o
+					}
+					// keep going from what the database holds
+					panicIf(e.resync(m))
+				}
 			}
-			got, err := e.snapshot()
-			if err != nil {
-				panic("snapshot: " + err.Error())
+			if len(reps) > 1 {
+				out.Labels = append(out.Labels, fmt.Sprintf("sweep %s %s", ctxs, op.Req))
 			}
-			if want := m.snapshot(); got != want {
-				if o, stop := fail(fmt.Sprintf("contents-differ req=%s class=%s expect=%s", op.Req, class, expS), obs+"; database:\n"+got, "database:\n"+want); stop {
+			if firstAllowed != "" && firstDenied != "" {
+				if o, stop := fail(fmt.Sprintf("representations-disagree req=%s allowed=%s denied=%s", op.Req, firstAllowed, firstDenied),
+					fmt.Sprintf("%s on the %s DSN: operation %s answered 2xx in representation %s and 401/403 in representation %s with the same grants", who3, ctxs, op.Req, firstAllowed, firstDenied),
+					"the same allow/deny class in every representation of one operation"); stop {
 					return o
 				}
 			}
@@ -816,7 +1154,7 @@ func oracle(c Case) vkit.Outcome {
 var (
 	tblPerms = []string{"read", "write", "update", "delete", "admin"}
 	dsnPerms = []string{"read", "write", "admin"}
-	reqKinds = []string{"read", "read", "readabs", "describe", "list", "insert", "insert", "update", "update", "delete", "delete", "drop", "txread", "txinsert", "txdelete"}
+	reqKinds = []string{"read", "read", "insert", "insert", "upsert", "update", "update", "update", "delete", "delete", "describe", "list", "drop"}
 )
 
 func genPerms(t *rapid.T, pool []string, plusBias int) []string {
@@ -857,12 +1195,20 @@ func genOp(t *rapid.T) Op {
 		op.User = rapid.SampledFrom([]int{0, 0, 0, 1, 1, 1, 2, 2, 3}).Draw(t, "who")
 		op.Req = rapid.SampledFrom(reqKinds).Draw(t, "req")
 		op.ID = rapid.IntRange(1, 5).Draw(t, "id")
+		if reps := repsOf(op.Req); len(reps) > 1 {
+			// one representation, or (one time in four) all of them
+			if rapid.IntRange(0, 3).Draw(t, "sweep") == 0 {
+				op.Rep = "all"
+			} else {
+				op.Rep = rapid.SampledFrom(reps).Draw(t, "rep")
+			}
+		}
 	}
 	return op
 }
 
 func gen(t *rapid.T) Case {
-	n := rapid.IntRange(6, 32).Draw(t, "n")
+	n := rapid.IntRange(6, 24).Draw(t, "n")
 	var c Case
 	// prelude: most histories start with DSN-level grants for some users, so
 	// that the table tier is what decides most requests
@@ -878,6 +1224,29 @@ func gen(t *rapid.T) Case {
 	}
 	for i := 0; i < n; i++ {
 		c.Ops = append(c.Ops, genOp(t))
+	}
+	return c
+}
+
+// sweepCase: for each table-grant shape in turn, user u gets exactly that
+// shape on table 0 and then runs every row operation in every representation.
+func sweepCase(u int, dsn []string, shapes [][]string) Case {
+	var c Case
+	c.Ops = append(c.Ops, Op{Kind: "dgrant", User: u, Perms: dsn})
+	for k, sh := range shapes {
+		c.Ops = append(c.Ops, Op{Kind: "tclear", User: u, DSN: 0, Table: 0})
+		if len(sh) > 0 {
+			c.Ops = append(c.Ops, Op{Kind: "tgrant", User: u, DSN: 0, Table: 0, Perms: sh})
+		}
+		// another user holds everything on the same table, this user holds
+		// everything on the other table: neither may help
+		if k == 0 {
+			c.Ops = append(c.Ops, Op{Kind: "tgrant", User: (u + 1) % 2, DSN: 0, Table: 0, Perms: []string{"+read", "+write", "+update", "+delete"}})
+			c.Ops = append(c.Ops, Op{Kind: "tgrant", User: u, DSN: 0, Table: 1, Perms: []string{"+read", "+write", "+update", "+delete"}})
+		}
+		for _, rq := range []string{"read", "insert", "upsert", "update", "delete"} {
+			c.Ops = append(c.Ops, Op{Kind: "req", User: u, DSN: 0, Table: 0, Req: rq, ID: 1 + k%3, Rep: "all"})
+		}
 	}
 	return c
 }
@@ -900,7 +1269,7 @@ func fixed() []Case {
 		{Ops: []Op{
 			{Kind: "dgrant", User: 0, Perms: []string{"+read"}}, {Kind: "dgrant", User: 1, Perms: []string{"+read"}}, {Kind: "dgrant", User: 2, Perms: []string{"+read"}},
 			{Kind: "tgrant", User: 0, DSN: 0, Table: 1, Perms: []string{"+read"}}, {Kind: "tgrant", User: 1, DSN: 0, Table: 1, Perms: []string{"+read"}},
-			{Kind: "req", User: 0, DSN: 0, Table: 1, Req: "read"}, {Kind: "req", User: 1, DSN: 0, Table: 1, Req: "readabs"}, {Kind: "req", User: 2, DSN: 0, Table: 1, Req: "read"},
+			{Kind: "req", User: 0, DSN: 0, Table: 1, Req: "read"}, {Kind: "req", User: 1, DSN: 0, Table: 1, Req: "read", Rep: "abs-param"}, {Kind: "req", User: 2, DSN: 0, Table: 1, Req: "read"},
 			{Kind: "tgrant", User: 0, DSN: 0, Table: 1, Perms: []string{"-read"}},
 			{Kind: "req", User: 0, DSN: 0, Table: 1, Req: "read"}, {Kind: "req", User: 1, DSN: 0, Table: 1, Req: "describe"},
 			{Kind: "tclear", User: 1, DSN: 0, Table: 1}, {Kind: "req", User: 1, DSN: 0, Table: 1, Req: "read"},
@@ -920,18 +1289,40 @@ func fixed() []Case {
 			{Kind: "dgrant", User: 0, Perms: []string{"+read"}},
 			{Kind: "tgrant", User: 0, DSN: 0, Table: 0, Perms: append([]string{"+admin"}, full...)},
 			{Kind: "tgrant", User: 1, DSN: 0, Table: 0, Perms: full},
-			{Kind: "req", User: 0, DSN: 0, Table: 0, Req: "read"}, {Kind: "req", User: 0, DSN: 0, Table: 0, Req: "txread"},
+			{Kind: "req", User: 0, DSN: 0, Table: 0, Req: "read"}, {Kind: "req", User: 0, DSN: 0, Table: 0, Req: "read", Rep: "tx-readrows"},
 			{Kind: "req", User: 0, DSN: 0, Table: 0, Req: "insert", ID: 4}, {Kind: "req", User: 0, DSN: 0, Table: 0, Req: "update", ID: 1},
-			{Kind: "req", User: 0, DSN: 0, Table: 0, Req: "delete", ID: 2}, {Kind: "req", User: 0, DSN: 0, Table: 0, Req: "txinsert", ID: 5},
-			{Kind: "req", User: 0, DSN: 0, Table: 0, Req: "txdelete", ID: 3}, {Kind: "req", User: 1, DSN: 0, Table: 0, Req: "txinsert", ID: 5},
+			{Kind: "req", User: 0, DSN: 0, Table: 0, Req: "delete", ID: 2}, {Kind: "req", User: 0, DSN: 0, Table: 0, Req: "insert", Rep: "tx-insert", ID: 5},
+			{Kind: "req", User: 0, DSN: 0, Table: 0, Req: "delete", Rep: "tx-delete", ID: 3}, {Kind: "req", User: 1, DSN: 0, Table: 0, Req: "insert", Rep: "tx-insert", ID: 5},
 		}},
 		// DSN-level write grant only: reads must be denied on every path
 		{Ops: []Op{
 			{Kind: "dgrant", User: 1, Perms: []string{"+write"}},
 			{Kind: "tgrant", User: 1, DSN: 0, Table: 1, Perms: full},
-			{Kind: "req", User: 1, DSN: 0, Table: 1, Req: "read"}, {Kind: "req", User: 1, DSN: 0, Table: 1, Req: "readabs"},
+			{Kind: "req", User: 1, DSN: 0, Table: 1, Req: "read", Rep: "all"},
 			{Kind: "req", User: 1, DSN: 0, Table: 1, Req: "describe"}, {Kind: "req", User: 1, DSN: 0, Table: 1, Req: "list"},
-			{Kind: "req", User: 1, DSN: 0, Table: 1, Req: "insert", ID: 4}, {Kind: "req", User: 1, DSN: 0, Table: 1, Req: "txread"},
+			{Kind: "req", User: 1, DSN: 0, Table: 1, Req: "insert", ID: 4, Rep: "all"},
+		}},
+		// the sweep: every single-permission shape, the pairs that lack exactly the
+		// operation's own permission, admin only, nothing; every operation in every
+		// representation under each shape (so quick always covers write-without-update,
+		// update-without-write, delete-without-update, ... in each representation)
+		sweepCase(0, []string{"+read", "+write"}, [][]string{
+			{"+read"}, {"+write"}, {"+update"}, {"+delete"}, {"+admin"}, {},
+		}),
+		sweepCase(1, []string{"+read", "+write"}, [][]string{
+			{"+write", "+update"}, {"+read", "+write", "+delete"}, {"+read", "+update", "+delete"}, {"+read", "+write", "+update"}, {"+write", "+update", "+delete"}, {"+read", "+write", "+update", "+delete"},
+		}),
+		// DSN tier: read only / write only with every table grant
+		sweepCase(0, []string{"+read"}, [][]string{{"+read", "+write", "+update", "+delete"}}),
+		sweepCase(1, []string{"+write"}, [][]string{{"+read", "+write", "+update", "+delete"}}),
+		// the third user (ego.logon + ego.sql only) and the unrestricted DSN / administrator
+		sweepCase(2, []string{"+read", "+write"}, [][]string{{"+write"}, {"+update"}, {}}),
+		{Ops: []Op{
+			{Kind: "req", User: 0, DSN: 1, Table: 0, Req: "read", Rep: "all"}, {Kind: "req", User: 2, DSN: 1, Table: 0, Req: "insert", ID: 2, Rep: "all"},
+			{Kind: "req", User: 1, DSN: 1, Table: 0, Req: "update", ID: 2, Rep: "all"}, {Kind: "req", User: 1, DSN: 1, Table: 0, Req: "delete", ID: 3, Rep: "all"},
+			{Kind: "req", User: 3, DSN: 0, Table: 1, Req: "read", Rep: "all"}, {Kind: "req", User: 3, DSN: 0, Table: 1, Req: "insert", ID: 2, Rep: "all"},
+			{Kind: "req", User: 3, DSN: 0, Table: 1, Req: "upsert", ID: 2, Rep: "all"}, {Kind: "req", User: 3, DSN: 0, Table: 1, Req: "update", ID: 2, Rep: "all"},
+			{Kind: "req", User: 3, DSN: 0, Table: 1, Req: "delete", ID: 3, Rep: "all"},
 		}},
 	}
 }
@@ -940,13 +1331,16 @@ func TestC43(t *testing.T) {
 	vkit.Run(t, vkit.Spec[Case]{
 		ID:    "C43",
 		Level: "exploration",
-		Rule: "history of 6-32 steps: table grants/revokes and clears (user x DSN x table x {read,write,update,delete,admin}) and DSN-level grants/revokes ({read,write,admin}, restricted DSN) by the administrator through the REST permission endpoints, " +
-			"grant attempts by ordinary users, and requests (read, abstract read, describe, list, insert, update, delete, drop) by 3 ordinary users and the administrator on a restricted and an unrestricted SQLite DSN with 2 tables each. " +
-			"Non-trivial: the history has a request by user A after a table grant to another user on the same table, or to A on another table/DSN; distinct by history. coverage.requests / requests_nontrivial count single requests.",
+		Rule: "history of 6-27 steps: table grants/revokes and clears (user x DSN x table x {read,write,update,delete,admin}) and DSN-level grants/revokes ({read,write,admin}, restricted DSN) by the administrator through the REST permission endpoints, " +
+			"grant attempts by ordinary users, and requests by 3 ordinary users and the administrator on a restricted and an unrestricted SQLite DSN with 2 tables each: row operations read/insert/upsert/update/delete, each in one of its representations " +
+			"(plain JSON payload and parameter variants, ?abstract=true, abstract media type, @transaction task kinds incl. SQL text) or in all of them (sweep, one time in four), plus describe, list, drop. " +
+			"Fixed cases sweep every operation x representation under every single-permission grant shape, the shapes lacking exactly one permission, admin-only, none, and DSN read-only / write-only. " +
+			"Non-trivial: the history has a request by user A after a table grant to another user on the same table, or to A on another table/DSN; distinct by history. " +
+			"coverage.requests / requests_nontrivial count single requests; coverage.cells_operation_representation_shape_class lists every (operation/representation, grant shape, answer class) that occurred.",
 		Assumptions: []string{
 			"database-backed user/permission store (with the file store ego has no table_perms store and allows everything)",
 			"details on which docs/API.md, docs/SERVER.md and the code disagree are not asserted (see the comment at the top of c43_test.go)",
-			"PostgreSQL path, @sql and @transaction are not exercised here",
+			"PostgreSQL, the @sql endpoint, multi-task scripts and ?user= impersonation are not exercised here; PATCH/DELETE reject the abstract media type and DELETE rejects ?abstract at the router, so those spellings are not representations",
 		},
 		Gen:      gen,
 		Oracle:   oracle,
@@ -957,7 +1351,12 @@ func TestC43(t *testing.T) {
 			if theEnv == nil {
 				return nil
 			}
-			return map[string]any{"requests": theEnv.reqs, "requests_nontrivial": theEnv.ntReqs}
+			var cells []string
+			for k := range theEnv.cells {
+				cells = append(cells, k)
+			}
+			sort.Strings(cells)
+			return map[string]any{"requests": theEnv.reqs, "requests_nontrivial": theEnv.ntReqs, "cells_operation_representation_shape_class": cells}
 		},
 	})
 }
